@@ -642,6 +642,8 @@ def rule_printer_reading(ctx: Ctx, rule: str = "printer-meaning") -> None:
     cases = [
         ("single term, mixed signs and unit coefficients", [({"x": 2, "y": -3, "z": 1, "w": -1}, 4)], ("le", 0)),
         ("leading negative non-unit coefficient", [({"x": -2.5, "y": 1}, -7)], ("le", 0)),
+        ("coefficients between 0 and 1, in first and in later positions", [({"w": 0.5, "x": 0.25, "y": -0.75, "z": 0.125}, 0.5)], ("le", 0)),
+        ("coefficients just above 1 and just below -1 in later positions", [({"w": 3, "x": 1.5, "y": -1.5}, -0.25)], ("le", 0)),
         ("variable names that look like exponents (e1, e2, E3x)", [({"e1": 1, "e2": 2, "E3x": -4}, 4)], ("le", 0)),
         ("rounding to four significant digits", [({"x": 1.23456, "y": -0.000123456}, 1234.56)], ("le", 0)),
         ("opposite pair, equal constants -> |LHS| <= c", [({"x": 2, "y": -1}, 3), ({"x": -2, "y": 1}, 3)], ("abs", 3)),
